@@ -53,7 +53,21 @@ fn words(s: &str) -> Vec<String> {
 fn debug_diff(a: &str, b: &str) -> String {
     let (wa, wb) = (words(a), words(b));
     let n = wa.iter().zip(wb.iter()).position(|(x, y)| x != y).unwrap_or(wa.len().min(wb.len()));
-    let ctx: Vec<&String> = wa[..n].iter().rev().filter(|w| w.chars().next().map(|c| c.is_alphabetic()).unwrap_or(false) && w.chars().next().unwrap().is_uppercase()).take(2).collect();
+    // context = the two nearest constructor names of the Rust model (a fixed vocabulary: identifiers of the module
+    // under test - variant and type names - would make the signature depend on the random module)
+    const VOCAB: &[&str] = &[
+        "Definition", "Struct", "Enum", "DataEnum", "TupleStruct", "Field", "DataVariant", "Enumeration", "PlainEnum", "Option", "Default", "Vec", "Complex", "Range", "Some", "None",
+        "Bool", "U8", "I8", "U16", "I16", "U32", "I32", "U64", "I64", "String", "VecU8", "BitVec", "Null", "Size", "Any", "Fix", "Keep", "Sort", "Universal", "Application", "ContextSpecific",
+        "Private", "Utf8", "Numeric", "Printable", "Ia5", "Visible", "Integer", "Boolean", "OctetString", "EnumeratedVariant",
+    ];
+    const INT_TYPES: &[&str] = &["U8", "I8", "U16", "I16", "U32", "I32", "U64", "I64"];
+    if let (Some(x), Some(y)) = (wa.get(n), wb.get(n)) {
+        if INT_TYPES.contains(&x.as_str()) && INT_TYPES.contains(&y.as_str()) {
+            // the position (field, optional field, variant, element ...) does not matter for a changed integer type
+            return format!("integer-type:{}→{}", x, y);
+        }
+    }
+    let ctx: Vec<&String> = wa[..n].iter().rev().filter(|w| VOCAB.contains(&w.as_str())).take(2).collect();
     let ctx: Vec<String> = ctx.into_iter().rev().cloned().collect();
     let norm = |w: Option<&String>| -> String {
         match w {
